@@ -90,6 +90,23 @@ def task(arg):
                 outcomes=len(outcomes)), out
 
 
+def order_task(arg):
+    """All orders of the item list x all assignments (per-worker order follows the list)."""
+    k, w, names, salt = arg
+    quiet_shm()
+    out = []
+    n = 0
+    for order in itertools.permutations(range(k)):
+        for assign in itertools.product(range(w), repeat=k):
+            case = dict(k=k, w=w, names=list(names), salt=salt, assign=list(assign),
+                        order=list(order))
+            probs, res = exec_case(case)
+            n += 1
+            if probs and len(out) < 3:
+                out.append((case, f"k={k} w={w} order={list(order)} assign={list(assign)}: {probs[0]}"))
+    return dict(k=k, w=w, executions=n), out
+
+
 def tree_task(arg):
     """Merge-tree sweep for one n_workers."""
     w, salt = arg
@@ -287,6 +304,21 @@ def _explore(rep, salt, reals):
     rep.set("states", 0)
     rep.set("transitions", 0)
     rep.set("traces_validated_against_impl", 0)
+    # the explorer owns the nondeterminism: the same (assignment, choices) twice gives the
+    # same scheduling points, deliveries and outcome
+    for case in (dict(k=4, w=3, names=["cms", "hh", "hll"], salt=salt, assign=[2, 0, 1, 2]),
+                 dict(k=3, w=2, names=["hh", "hll"], salt=salt, assign=[1, 1, 0], choices=[0, 0, 1])):
+        obs = []
+        for _ in range(2):
+            try:
+                probs, res = exec_case(dict(case))
+            except RuntimeError as e:  # replay divergence on a bad choice index
+                obs.append(("diverged", str(e)))
+                continue
+            obs.append((json.dumps(_norm(res["outcome"]), sort_keys=True), res["points"],
+                        res["delivered"], probs))
+        if obs[0] != obs[1]:
+            raise MachineryError("the simulated scheduler is not deterministic")
     # (a)
     jobs = []
     if rep.tier == "quick":
@@ -324,6 +356,17 @@ def _explore(rep, salt, reals):
         rep.part(f"merge-tree-w{st['w']}", executions=st["executions"])
     execs += tn
     print(f"  (b) merge-tree sweep: {tn} executions, n_workers 1..9", flush=True)
+    # (a') every order of the item list x every assignment
+    ojobs = [(3, 2, ("cms", "hh", "hll"), salt)] if rep.tier == "quick" else \
+        [(4, 2, ("cms", "hh", "hll"), salt), (4, 3, ("hh", "hll"), salt), (3, 3, ("cms", "hh"), salt)]
+    res = run_tasks(__name__, "order_task", ojobs)
+    on = 0
+    for st, viol in res:
+        rep.violations.extend(viol)
+        on += st["executions"]
+        rep.part(f"orders-k{st['k']}-w{st['w']}", executions=st["executions"])
+    execs += on
+    print(f"  (a') item orders x assignments: {on} executions", flush=True)
     # (c)
     if rep.tier == "quick":
         djobs = [(3, 2, ("cms", "hh", "hll"), (0, 1, 0), salt, 1),
